@@ -193,6 +193,9 @@ pub fn openssl_cts() -> &'static Vec<Value> {
 }
 
 pub fn replay(ctx: &Arc<Ctx>, v: &Value) {
+    if crate::cold::replay(ctx, v) {
+        return;
+    }
     let c: Case = serde_json::from_value(v.clone()).expect("C05 case");
     eval(ctx, &c);
 }
@@ -283,4 +286,5 @@ pub fn run(ctx: &Arc<Ctx>) {
     ctx.sample(serde_json::to_value(&cases[0]).unwrap());
     ctx.sample(serde_json::to_value(&cases[100]).unwrap());
     run_cases(ctx, &cases, 8, eval);
+    crate::cold::check(ctx, "C05");
 }
